@@ -216,6 +216,16 @@ func init() {
 		}
 		return nil
 	}
+	// map iteration order schemes for determinism harnesses (see Exec.flipMode)
+	nameModels["verif_maporder"] = func(ex *Exec, fn *ssa.Function, args []Value) Value {
+		ex.flipMode = ex.concreteInt(args[0], "verif_maporder mode")
+		ex.flipSite = ex.concreteInt(args[1], "verif_maporder site")
+		ex.mapRangeCount = 0
+		return nil
+	}
+	nameModels["verif_maprange_count"] = func(ex *Exec, fn *ssa.Function, args []Value) Value {
+		return ex.ctx.Int(int64(ex.mapRangeCount))
+	}
 	nameModels["verif_symbolic"] = func(ex *Exec, fn *ssa.Function, args []Value) Value {
 		return ex.ctx.tTrue
 	}
